@@ -24,6 +24,8 @@ def check(ctx: Ctx, col: Collector, tier: str) -> None:
     col.spec("C13.NODE-LOOKUP", "a qualified name resolves to the node of exactly that element: every name segment after the root descends one level", "per-iteration analysis of _get_griffe_node", floor=2)
     col.spec("C13.MODULE-DOC", "the module description is the module's first top-level string", "exit of the search loop in enter_moduledef", floor=1)
     col.spec("C13.EXAMPLE-LINES", "the code lines of each example appear line for line: only the prompt marker of a line is rewritten", "specialisation of the example loop over prompt kinds", floor=2)
+    col.spec("C13.ACCUMULATE", "no documentation section is dropped: what a getter collects over the sections of a docstring (description text, example lines) is accumulated, "
+             "never overwritten by a later section", "loop-carried dependence of the variables a section loop updates and the getter returns", floor=4)
     col.spec("C13.COMMENT-PARTS", "description, @param and @result lines of an element are rendered from that element's own documentation", "provenance of the holes of _create_sds_docstring", floor=3)
 
     pm = repo.module(DOCPARSER)
@@ -248,6 +250,41 @@ def check(ctx: Ctx, col: Collector, tier: str) -> None:
     (col.ok if okk else col.bad)("C13.MODULE-DOC", f"{VISITOR}::{VCLS}.enter_moduledef::first-string-wins", repo.loc(VISITOR, mfi.node),
                                  "the search stops at the first top-level string statement; other statements leave the docstring untouched" if okk else "loop shape differs",
                                  *([] if okk else ["the module docstring is not the first top-level string: a later bare string (e.g. an attribute docstring) replaces the module description"]))
+
+    # ------------------------------------------------------------------ ACCUMULATE
+    for gname in ("get_class_documentation", "get_function_documentation"):
+        gfi2 = pci.methods[gname]
+        col.touched(gfi2)
+        loops = [n for n in ast.walk(gfi2.node) if isinstance(n, ast.For) and ast.unparse(n.iter).endswith(".parsed")]
+        if len(loops) != 1:
+            raise AnalysisError(f"{gname}: section loop not found")
+        loop = loops[0]
+        returned = {x.id for r in ast.walk(gfi2.node) if isinstance(r, ast.Return) and r.value is not None for x in ast.walk(r.value) if isinstance(x, ast.Name)}
+        updated: dict[str, list[ast.AST]] = {}
+        for n in ast.walk(loop):
+            if isinstance(n, ast.Assign):
+                for t in n.targets:
+                    if isinstance(t, ast.Name):
+                        updated.setdefault(t.id, []).append(n)
+            elif isinstance(n, ast.AugAssign) and isinstance(n.target, ast.Name):
+                updated.setdefault(n.target.id, []).append(n)
+            elif isinstance(n, ast.Call) and isinstance(n.func, ast.Attribute) and n.func.attr in ("append", "extend", "add", "update") and isinstance(n.func.value, ast.Name):
+                updated.setdefault(n.func.value.id, []).append(n)
+        loop_targets = {x.id for f in ast.walk(loop) if isinstance(f, (ast.For, ast.comprehension)) for x in ast.walk(f.target) if isinstance(x, ast.Name)}
+        for var in sorted((set(updated) & returned) - loop_targets):
+            bad_updates = []
+            for n in updated[var]:
+                if isinstance(n, ast.Assign):
+                    # an assignment keeps the earlier sections only if its value is built from the variable itself
+                    if not any(isinstance(x, ast.Name) and x.id == var for x in ast.walk(n.value)):
+                        bad_updates.append(n)
+            key = f"{DOCPARSER}::{DP}.{gname}::{var}"
+            if bad_updates:
+                col.bad("C13.ACCUMULATE", key, repo.loc(DOCPARSER, bad_updates[0]), f"`{ast.unparse(bad_updates[0])[:80]}` inside the section loop",
+                        f"{gname}: `{var}` is overwritten for every matching section of the docstring (`{ast.unparse(bad_updates[0])[:60]}`): with two such sections "
+                        f"(e.g. text before and after the parameter section) only the last one reaches the stub")
+            else:
+                col.ok("C13.ACCUMULATE", key, repo.loc(DOCPARSER, updated[var][0]), f"`{var}`: {len(updated[var])} update(s) in the section loop, all accumulating")
 
     # ------------------------------------------------------------------ EXAMPLE-LINES
     dit = ctx.interp(dfi)
